@@ -1,7 +1,8 @@
 (* C08 — the per-endpoint backlog is FIFO per registration: what reaches the wire for a registration, followed by what still
    waits in the backlog, is what the render task produced, in that order; Observe numbers are 0,1,2,... in production order.
    Hence, over every history, the datagrams of one registration carry one token and strictly rising Observe values. *)
-From Verif Require Import Lib.Py Lib.Tactics Model.C08 Proofs.C08.
+From Coq Require Import Sorted.
+From Verif Require Import Lib.Py Lib.Tactics Model.C08 Proofs.C08 Proofs.C08Silent Proofs.C08Ends.
 Open Scope Z_scope.
 
 Definition gfilter (g : Z) (l : list msg) : list msg := filter (fun m => m_gid m =? g) l.
@@ -494,6 +495,25 @@ Proof.
     apply FIx_remove. exact HF1.
 Qed.
 
+Lemma after_response_FI_any cont s g res : (forall s g, FIx (g_gid g) s -> statics s g -> RegOK None s g -> FI None (cont s g)) ->
+  FIx (g_gid g) s -> statics s g -> RegOK None s g -> FI None (after_response cont s g res).
+Proof.
+  intros Hc HF Hs R. unfold after_response. destruct res as [code pk pv|code pk pv].
+  - destruct (g_late g || negb (successful code)).
+    + destruct (emit_FI s g g code None pk pv HF Hs R eq_refl eq_refl eq_refl eq_refl (or_intror eq_refl)) as (_ & HF1 & _).
+      eapply FI_frame; [apply cancel_cb_sameG | apply piggy_shrinks_refl; reflexivity | apply FIx_remove; exact HF1].
+    + set (g1 := set_next g (g_next g + 1)).
+      destruct (emit_FI s g g1 code (Some (g_next g1)) pk pv HF Hs R eq_refl eq_refl eq_refl eq_refl (or_introl eq_refl)) as (Er & HF1 & R1).
+      apply Hc; [exact HF1 | eapply statics_frame; [exact Er | exact Hs] | apply R1; reflexivity].
+  - assert (HF0 : FIx (g_gid g) (cancel_cb s (g_gid g))) by (eapply FIx_frame; [apply cancel_cb_sameG | apply piggy_shrinks_refl; reflexivity | exact HF]).
+    assert (Hs0 : statics (cancel_cb s (g_gid g)) g) by exact Hs.
+    assert (R0 : RegOK None (cancel_cb s (g_gid g)) g).
+    { eapply RegOK_frame; [apply cancel_cb_sameG | apply piggy_shrinks_refl; reflexivity | | exact R].
+      destruct Hs as [[g0 [A B]] _]. rewrite <- B. apply (g_rng s (proj1 HF)). exact A. }
+    destruct (emit_FI _ g g code None pk pv HF0 Hs0 R0 eq_refl eq_refl eq_refl eq_refl (or_intror eq_refl)) as (_ & HF1 & _).
+    apply FIx_remove. exact HF1.
+Qed.
+
 (* ------------------------------------------------------------------ message layer events *)
 (* pretend endpoint [r] has an exchange: GI of the padded state = GI without the backlog/exchange clause for [r] *)
 Definition pad (s : state) (r : Z) : state := set_exch s (s_exch s ++ [mkexch r (-1) (-1)]).
@@ -876,12 +896,11 @@ Proof.
     set (m1 := mkmsg r ACK mid (-1) 0 None 0 0 (-1)).
     destruct (si_fields (piggy_remove s r tok) m1 (-1)) as (A1 & A2 & A3 & A4 & A5 & A6 & A7 & A8 & A9 & A10).
     apply (FI_other_send None s); [exact H | rewrite A1; reflexivity | rewrite A2; reflexivity | rewrite A5; reflexivity | left; rewrite A3; reflexivity | | left; rewrite A4; reflexivity | | ].
-    + intros g Hg. rewrite (wirel_cons g (piggy_remove s r tok) _ m1 A7). replace (m_gid m1 =? g) with false by (cbn; lia). reflexivity.
+    + intros g Hg. rewrite (wirel_cons g (piggy_remove s r tok) _ m1 A7). replace (m_gid m1 =? g) with false by (unfold m1; cbn [m_gid]; lia). reflexivity.
     + intros r' Hr. apply A8. exact Hr.
     + apply piggy_find_some_shrinks. rewrite A6. unfold piggy_remove. fsimpl. eexists. reflexivity.
   - unfold retransmit. destruct (c <? MAX_RETRANSMIT).
     + apply (FI_frame None s); [| apply piggy_shrinks_refl; reflexivity | exact H]. unfold add_timer, send_via_transport. sameG.
-      intros g _. unfold wirel. fsimpl. rewrite sends_cons_other by discriminate. reflexivity.
     + set (q := fun x => negb ((x_remote x =? m_remote m) && (x_mid x =? m_mid m))).
       change (FI None (stop_remote (fexch q (m_remote m) s) (m_remote m))). unfold stop_remote.
       change (s_regs (fexch q (m_remote m) s)) with (s_regs s). rewrite fold_stop_fexch.
@@ -908,7 +927,7 @@ Proof.
   set (p := fun e : Z * Z * Z => match e with (r', t', _) => (r' =? g_remote g0) && (t' =? g_token g0) end) in *.
   destruct (find p (filter _ (s_piggy s) ++ [(r, tok, mid)])) as [e|] eqn:Ef; [|exfalso; apply Hf; reflexivity].
   apply find_some in Ef as [Ei Epe]. apply in_app_iff in Ei as [Ei|[<-|[]]].
-  - apply filter_In in Ei as [Ei _]. intros Hn. eapply find_none in Hn; [|exact Ei]. fold p in Hn. congruence.
+  - apply filter_In in Ei as [Ei _]. destruct (find p (s_piggy s)) as [[[a b] c]|] eqn:F; [discriminate|]. exfalso. eapply find_none in F; [|exact Ei]. congruence.
   - exfalso. apply Hk. unfold key. cbn in Epe. f_equal. f_equal; lia.
 Qed.
 
@@ -917,12 +936,10 @@ Proof.
   intros H Hd. cbn [step]. rewrite Hd. apply FI_flush.
   set (s1 := fold_left stop (map g_gid (s_regs s)) s).
   assert (H1 : FI None s1) by (apply FI_fold_stop; exact H).
-  assert (R1 : s_regs s1 = []) by (subst s1; apply fold_stop_all_regs).
+  assert (R1 : s_regs s1 = []) by (subst s1; apply fold_stop_all; intros g Hg; apply in_map; exact Hg).
   destruct H1 as [HG _]. split.
   - destruct HG as [H1 H2 H3 H4 H5 H6 H7 H8 H9 H10 H11]. unfold cancel_timers. constructor; fsimpl; try assumption; try (rewrite R1; constructor).
-    + rewrite R1. intros g0 [].
-    + intros Hx. discriminate.
-    + intros _. exact R1.
+    intros Hx. discriminate.
   - unfold cancel_timers. fsimpl. rewrite R1. intros g0 [].
 Qed.
 
@@ -949,13 +966,52 @@ Proof.
     destruct (task_entry s g H E) as (A & B & C & D).
     destruct (g_phase g) eqn:Ep; [| exact H |]; apply FI_flush.
     + apply first_render_done_FI; auto. unfold PFok in D. rewrite Ep in D. exact D.
-    + destruct (g_trig g) eqn:Et.
-      * (* a trigger arrived while rendering: the local copy still holds it; the continuation consumes it *)
-        apply after_response_FI_gen; auto.
-      * apply after_response_FI; auto. intros s1 g1 A1 B1 C1 D1. apply run_loop_idle; assumption.
+    + apply after_response_FI_any; auto. intros s1 g1 A1 B1 C1. apply (run_loop_FI 0); assumption.
   - apply (FI_frame None s); [sameG | apply piggy_shrinks_refl; reflexivity | exact H].
   - apply (FI_frame None s); [sameG | apply piggy_shrinks_refl; reflexivity | exact H].
   - apply (FI_frame None (advance (advance_fuel s) s (s_now s + dt))); [sameG | apply piggy_shrinks_refl; reflexivity | apply advance_FI; exact H].
   - apply FI_flush, dispatch_error_FI, H.
   - destruct (s_down s) eqn:Hd; [exact H | ]. pose proof (shutdown_FI s H Hd) as X. cbn [step] in X. rewrite Hd in X. exact X.
+Qed.
+
+(* ------------------------------------------------------------------ whole histories *)
+Lemma FI_init m : FI None (init m).
+Proof. split; [|intros g0 []]. constructor; cbn; try (constructor; fail); try tauto; try lia; try discriminate.
+  - intros g _. exists []. reflexivity.
+  - intros _ r e []. Qed.
+Lemma run_FI : forall es s, FI None s -> FI None (run s es).
+Proof. induction es as [|e es IH]; intros s H; cbn; [exact H | apply IH, step_FI, H]. Qed.
+
+Definition obs_values (l : list (option Z)) : list Z := flat_map (fun o => match o with Some n => [n] | None => [] end) l.
+Lemma consec_sorted l : forall n, consec n l -> StronglySorted Z.lt (obs_values l) /\ Forall (fun x => n <= x) (obs_values l).
+Proof. induction l as [|[x|] l IH]; intros n H; cbn in *.
+  - split; constructor.
+  - destruct H as [-> H]. destruct (IH _ H) as [S F]. split.
+    + constructor; [exact S|]. eapply Forall_impl; [|exact F]. cbn. intros; lia.
+    + constructor; [lia|]. eapply Forall_impl; [|exact F]. cbn. intros; lia.
+  - subst l. split; constructor. Qed.
+
+(* For every history and every registration number g: the datagrams transmitted for the first time for g, in order, followed
+   by those waiting in the backlog, are a prefix of what the render task produced (all of it while g is live); they carry
+   Observe 0,1,2,... (the last one possibly none); all carry one endpoint and token — those of the live registration *)
+Lemma wire_lemma : forall mid0 es g, 0 <= g -> let s := run (init mid0) es in
+  (exists D, prodl g s = wirel g s ++ queuel g s ++ D) /\
+  consec 0 (observes (wirel g s)) /\
+  StronglySorted Z.lt (obs_values (observes (wirel g s))) /\
+  (forall m1 m2, In m1 (wirel g s) -> In m2 (wirel g s) -> m_remote m1 = m_remote m2 /\ m_token m1 = m_token m2) /\
+  (forall g0, In g0 (s_regs s) -> g_gid g0 = g ->
+     prodl g s = wirel g s ++ queuel g s /\
+     observes (prodl g s) = somes (g_next g0 + 1) /\
+     forall m, In m (wirel g s) -> m_remote m = g_remote g0 /\ m_token m = g_token g0).
+Proof.
+  intros mid0 es g Hg s. destruct (run_FI es (init mid0) (FI_init mid0)) as [HG Ho]. fold s in HG, Ho.
+  destruct (g_f1 s HG g Hg) as [D HD].
+  assert (Hc : consec 0 (observes (wirel g s))).
+  { pose proof (g_n s HG g Hg) as C. rewrite HD in C. unfold observes in *. rewrite map_app in C. eapply consec_prefix. exact C. }
+  assert (Hin : forall m, In m (wirel g s) -> In m (s_prod s) /\ m_gid m = g).
+  { intros m Hm. apply prodl_In. rewrite HD. apply in_or_app. left. exact Hm. }
+  split; [exists D; exact HD | split; [exact Hc | split; [apply (consec_sorted _ 0 Hc) | split]]].
+  - intros m1 m2 I1 I2. destruct (Hin m1 I1), (Hin m2 I2). apply (g_kk s HG); try assumption; lia.
+  - intros g0 Hg0 <-. destruct (Ho g0 Hg0) as [[R1 R2 R3 R4 R5] _]. split; [exact R1 | split; [apply R4|]].
+    intros m Hm. apply R5. rewrite R1. apply in_or_app. left. exact Hm.
 Qed.
